@@ -46,9 +46,9 @@ def replay(path, verbose=False, force_shims=None):
 
 
 def write_replay(prop, seed, index, small, mask):
-    d = os.path.join(VERIF, "replays", prop)
+    d = os.path.join(os.environ.get("PSS_REPLAY_DIR") or os.path.join(VERIF, "replays"), prop)
     os.makedirs(d, exist_ok=True)
-    body = {"property": prop, "seed": seed, "index": index, "shims": list(mask), "class": small["class"],
+    body = {"property": prop, "seed": seed, "index": index, "shims": list(mask), "class": list(small["class"]),
             "ops": small["ops"], "divergence": small["divergence"], "minimised_from": small["original_len"],
             "shrink_evals": small["evals"],
             "how": "run.py replay <this file>: executes ops in one fresh process (SUT) and each op's dependency "
@@ -183,6 +183,7 @@ def run_check(prop, tier, base, jobs, budget, t0):
     left = max(5.0, budget - (time.time() - t0))
     results = driver.batch(prop, base, tier, left, jobs)
     mask = driver.mask_for(prop)
+    unconfirmed = []
     agg = aggregate(spec, results)
     for r in results:
         if r.get("harness_error"):
@@ -191,19 +192,39 @@ def run_check(prop, tier, base, jobs, budget, t0):
         if v:
             path = write_replay(prop, r["seed"], r["index"], v, mask)
             ok, txt = confirm_replay(path)
+            note = ""
+            if not ok and v.get("unshrunk_ops"):
+                # the minimised history does not reproduce in a fresh interpreter (the failure depends on
+                # something outside the program, typically memory addresses): fall back to the history as run
+                os.remove(path)
+                big = dict(v, ops=v["unshrunk_ops"], divergence=v["unshrunk_divergence"],
+                           **{"class": list(shrink.classify(v["unshrunk_divergence"]))})
+                path = write_replay(prop, r["seed"], r["index"], big, mask)
+                for attempt in range(3):
+                    ok, txt = confirm_replay(path)
+                    if ok:
+                        break
+                note = " [not minimised: the shrunk history did not reproduce in a fresh interpreter – address/allocator dependent]"
+                v = big
             if not ok:
-                harness_errors.append(f"replay {path} did not reproduce in a fresh interpreter: {txt[-500:]}")
+                unconfirmed.append(f"replay {path} did not reproduce in a fresh interpreter: {txt[-300:]}")
                 continue
             print(f"VIOLATION property={prop} replay={path}")
             d = v["divergence"]
             print(f"  seed={r['seed']} run={r['index']} class={v['class']} minimised {v['original_len']}->{len(v['ops'])} ops "
-                  f"({v['evals']} re-executions)")
+                  f"({v['evals']} re-executions){note}")
             print("  " + json.dumps({"at": d.get("at"), "op": d.get("op"), "handle": d.get("handle"), "sut": d.get("sut"), "ref": d.get("ref")})[:1500])
             violations.append({"replay": path, "class": v["class"]})
     wall = time.time() - t0
     write_evidence(prop, tier, base, agg, wall, violations, harness_errors, det_msg, kf_repro, jobs, mask)
     print(f"runs={agg['runs']} ops={agg['ops']} distinct_nontrivial={agg['distinct_nontrivial']} "
           f"runs/h={int(agg['runs'] / max(wall, 1e-9) * 3600)} faults={json.dumps(agg['fault_counts'], sort_keys=True)}")
+    if unconfirmed and not violations:
+        # a divergence was observed in the batch but no replay reproduces it: never a pass
+        harness_errors += unconfirmed
+    elif unconfirmed:
+        for u in unconfirmed[:3]:
+            print("NOTE (other divergent runs whose replay did not reproduce; the confirmed violation above stands): " + u[:300])
     if harness_errors:
         for h in harness_errors[:5]:
             print("HARNESS-ERROR " + h[:1500])
